@@ -46,3 +46,8 @@ ENTRIES = [
     N('rename-url-info', "linked_url_info", "child_info", P),
 ]
 ENTRIES[-1]['all'] = True
+
+ENTRIES += [
+    N('redirect-hop-looked-up', "            if not verdict:\n                self._item_session.skip()\n                break\n\n            exit_early, wait_time",
+      "            if not verdict:\n                self._item_session.skip()\n                break\n\n            if self._item_session.app_session.factory['URLTable'].contains(self._item_session.request.url_info.url):\n                _logger.debug('hop known')\n\n            exit_early, wait_time", W),
+]
